@@ -994,7 +994,7 @@ def run(tier):
     for pr in p2:
         rep.tie_broken(f"model runner died (rc={pr[1]}): {pr[2][-300:]}", (pr[3] or "")[:300])
     valid_bytes = []
-    for (st, li, ok, want, nb, m), a, b in zip(ind, ilines, impl, model):
+    for (st, li, ok, want, nb, m), a, b in zip(ind, impl, model):
         rep.count(li[:4000])
         bump("indep:" + st + (":ok" if ok else ":toodeep"))
         at = a.split()
